@@ -83,6 +83,33 @@ def _observe(results, kind):
     return hashlib.sha256(json.dumps(out, default=repr).encode("utf-8", "surrogatepass")).hexdigest()
 
 
+def _raw_streams(results):
+    """Every BytesIO object stored in the results (picture payloads, attachments, ...), found by walking the dataclass
+    tree: the streams a caller may hold a reference to."""
+    import dataclasses
+    found, seen = [], set()
+
+    def walk(x, depth=0):
+        if id(x) in seen or depth > 12:
+            return
+        if isinstance(x, io.BytesIO):
+            seen.add(id(x))
+            found.append(x)
+        elif dataclasses.is_dataclass(x) and not isinstance(x, type):
+            seen.add(id(x))
+            for f in dataclasses.fields(x):
+                walk(getattr(x, f.name, None), depth + 1)
+        elif isinstance(x, (list, tuple)):
+            for y in x:
+                walk(y, depth + 1)
+        elif isinstance(x, dict):
+            for y in x.values():
+                walk(y, depth + 1)
+    for r in results:
+        walk(r)
+    return found
+
+
 def _load(doc):
     """doc = {"id", "fmt", "data": bytes} (generated) or {"id", "path"} (fixture) -> (extractor call)."""
     from ..repo import activate
@@ -130,9 +157,28 @@ def _history_job(job):
             d0 = _digest(results)
             evs = [("Input", same)]
             first = {}
+            streams = _raw_streams(results)
             for k in h:
+                # an observer that hands no stream to the caller leaves every stored stream where it stands (a handle the
+                # caller took earlier still reads what it read before): ImageBytes is the one observer that reads streams
+                before = [b.tell() for b in streams]
                 val = _observe(results, k)
-                evs.append(("Obs", k, _digest(results), 0 if first.setdefault(k, val) == val else 1))
+                moved = k != "ImageBytes" and [b.tell() for b in streams] != before
+                evs.append(("Obs", k, _digest(results), 0 if first.setdefault(k, val) == val and not moved else 1))
+            if streams and n == 0:
+                # ... and the digest itself: to_json() with the stored streams standing at 0, in the middle, at the end
+                for b in streams:
+                    b.seek(0)
+                positions = []
+                for frac in (0, 2, 1):
+                    for b in streams:
+                        b.seek(len(b.getvalue()) // frac if frac else 0)
+                    at = [b.tell() for b in streams]
+                    dg = _digest(results)
+                    positions.append(dg == d0 and [b.tell() for b in streams] == at)
+                for b in streams:
+                    b.seek(0)
+                evs.append(("Obs", "ToJson", d0 if all(positions) else "moved-or-position-dependent", 0 if all(positions) else 1))
             # other extractions in the same process while the result is held: the same bytes under another path, then
             # other documents (of the same family first); the held result must stay what it is
             held = []
